@@ -20,6 +20,7 @@ import collections
 from .. import core
 from .. import structworld as W
 from .. import struct_props as S
+from .. import editworld
 from ..impl import mx, close_all, quiet
 from ..execworld import deep_counter
 
@@ -142,6 +143,9 @@ class H(S.Hooks):
                     break
         if first is not None:
             out.fail(first[0], first[1], key=first[2])
+
+
+editworld.hook(H)      # every struct history also runs on the combined machine (driver layer `edit`), as far as it is covered
 
 
 # ----------------------------------------------------------------------------- value layer (mechanism model)
@@ -324,6 +328,8 @@ def run(ctx, out):
     xstats = X.run_family(ctx, sub, XCFG, xoracle, 70, 1500, corpus_name="C02exec", structured=scenario_cases(ctx))
     S.merge(out, sub)
     S.run_struct(ctx, out, "C02", CFG, H, 60, 1200, RULE, ops_range=(14, 30))
+    # histories inside the vocabulary of the combined machine (Edit/Machine.lean): compared to the end
+    out.coverage["combined_machine"] = dict(editworld.run_family(ctx, out))
     out.coverage["value_layer_mechanism"] = sub.coverage
     out.coverage["evaluations"] = out.coverage.get("evaluations", 0) + sub.coverage.get("evaluations", 0)
 
@@ -340,6 +346,14 @@ def search(ctx, out, extra):
     from .. import exec_props as X
     from ..execworld import ExecImpl
     stats = collections.Counter()
+    # a disagreement with the combined machine (layer `edit`): the history on which modelx held more / less than the
+    # machine, continued by evaluating everything, judged by the fresh-model oracle
+    for d in out.disagreements:
+        h = d.get("history")
+        if isinstance(h, dict) and "ops" in h and str(d.get("layer", "")).startswith("edit:"):
+            S.run_one(S.ops_from_json(h) + [["evalall"]], extra, stats, H(), CFG)
+            if any(f.get("key") is None for f in extra.failures):
+                return
     for i in range(ctx.n(120, 1500)):
         case = X.gen_case(ctx.rng("search", i), SEARCH_CFG)
         impl = ExecImpl(case["cells"], case["refs"], case["n_rn"], case["maxdepth"], log=False)
